@@ -49,7 +49,7 @@ func (p *Program) loadOfField(v ssa.Value) (*types.Var, ssa.Instruction) {
 // edgeFacts lists, for every If of fn, the field facts holding on each outgoing edge.
 func (p *Program) edgeFacts(g *IG) []edgeFact {
 	var out []edgeFact
-	for _, ifi := range ifsOf(g.Fn) {
+	for _, ifi := range g.ifs() {
 		for _, outcome := range []bool{true, false} {
 			e := g.branchEdge(ifi, outcome)
 			if f, ok := condFact(ifi.Cond, outcome); ok {
